@@ -31,7 +31,8 @@ package cors
 //@   frozen E! MP! MV! F!origins_node F!util_Set F!cors_internalConfig F!http_Request
 //@   requires m != nil && r != nil
 //@   requires hdr(w) != r.Header
-//@   requires old(m.icfg) != nil ==> ICfgInv(old(m.icfg)) && TreeInv(old(m.icfg))
+//@   requires old(m.icfg) != nil ==> ICfgInv(old(m.icfg))
+//@   requires forsafety_tree: old(m.icfg) != nil ==> TreeInv(old(m.icfg))
 //@
 //@   ensures C11.handler_calls: nevents("ServeHTTP") == ((old(m.icfg) == nil || !old(IsPreflight(r))) ? 1 : 0)
 //@   ensures C11.handler_args: nevents("ServeHTTP") == 1 ==> eventarg("ServeHTTP", 0) === h && eventarg("ServeHTTP", 1) === w && eventarg("ServeHTTP", 2) === r
